@@ -589,7 +589,7 @@ pub fn gen_session(rng: &mut Rng, n: usize, calls: usize) -> Vec<(String, u128)>
             7 | 8 => s.push(("it_nth_back".into(), k)),
             9 => s.push(("it_size_hint".into(), 0)),
             10 => {
-                if revs < 2 {
+                if revs < 4 {
                     revs += 1;
                     s.push(("it_rev".into(), 0));
                 } else {
